@@ -330,6 +330,20 @@ impl Gen {
     }
 
     // ------------------------------------------------------------------------------------- helpers
+    /// an existing identifier, occasionally the way a user might mistype it: without its prefix,
+    /// with the prefix twice, with another prefix
+    fn ident(&mut self, id: &str) -> String {
+        if !self.rng.chance(1, 12) {
+            return id.to_string();
+        }
+        let bare = id.trim_start_matches("u-").trim_start_matches("p-").trim_start_matches("m-").trim_start_matches("f-").to_string();
+        match self.rng.below(5) {
+            0 | 1 => bare,
+            2 => format!("u-{id}"),
+            3 => format!("p-{bare}"),
+            _ => format!("m-{bare}"),
+        }
+    }
     /// the epoch in force when the operation being generated executes (after the step's clock
     /// advance); one time in five the epoch before the advance (stale view: boundary cases)
     fn exec_epoch(&mut self, c: &SimCore) -> u64 {
@@ -1280,7 +1294,7 @@ impl Gen {
                         preliminary_end_epoch: None,
                         curve: None,
                         farm_asset: coin(amount, denom),
-                        farm_identifier: Some(f.identifier.clone()),
+                        farm_identifier: Some(self.ident(&f.identifier)),
                     },
                 },
             },
@@ -1300,7 +1314,7 @@ impl Gen {
         };
         Op::Fm {
             sender,
-            msg: FmMsg::ManageFarm { action: FarmAction::Close { farm_identifier: f.identifier.clone() } },
+            msg: FmMsg::ManageFarm { action: FarmAction::Close { farm_identifier: self.ident(&f.identifier) } },
             funds: if self.rng.chance(1, 30) { vec![coin(1, "uom")] } else { vec![] },
         }
     }
@@ -1383,7 +1397,7 @@ impl Gen {
         let amt = if b == 0 { 5 } else { self.rng.log_u128(b) };
         Op::Fm {
             sender,
-            msg: FmMsg::ManagePosition { action: PositionAction::Expand { identifier: p.identifier.clone() } },
+            msg: FmMsg::ManagePosition { action: PositionAction::Expand { identifier: self.ident(&p.identifier) } },
             funds: vec![coin(amt, p.lp_asset.denom.clone())],
         }
     }
@@ -1406,7 +1420,7 @@ impl Gen {
         };
         Op::Fm {
             sender,
-            msg: FmMsg::ManagePosition { action: PositionAction::Close { identifier: p.identifier.clone(), lp_asset } },
+            msg: FmMsg::ManagePosition { action: PositionAction::Close { identifier: self.ident(&p.identifier), lp_asset } },
             funds: vec![],
         }
     }
@@ -1433,7 +1447,7 @@ impl Gen {
         Op::Fm {
             sender,
             msg: FmMsg::ManagePosition {
-                action: PositionAction::Withdraw { identifier: p.identifier.clone(), emergency_unlock },
+                action: PositionAction::Withdraw { identifier: self.ident(&p.identifier), emergency_unlock },
             },
             funds: vec![],
         }
